@@ -8,6 +8,9 @@ import (
 	"testing"
 
 	"github.com/google/badwolf/triple"
+	"github.com/google/badwolf/triple/literal"
+	"github.com/google/badwolf/triple/node"
+	"github.com/google/badwolf/triple/predicate"
 	"github.com/google/badwolf/xverif/sim"
 )
 
@@ -114,19 +117,56 @@ type uuidVal struct {
 	tr   *triple.Triple
 }
 
+// freshNode / freshPred / freshObj build NEW value objects equal to vocabulary entries: whatever a value keeps
+// inside itself (a lazily computed id, a memo) starts empty, so that first calls can meet each other.
+func freshNode(i int) *node.Node {
+	n := V.Nodes[i%len(V.Nodes)]
+	return mustNode(n.Type().String(), n.ID().String())
+}
+
+func freshPred(i int) *predicate.Predicate {
+	p := V.Preds[i%len(V.Preds)]
+	if np, err := predicate.Parse(p.String()); err == nil {
+		return np
+	}
+	return p
+}
+
+func freshObj(i int) *triple.Object {
+	o := V.Objs[i%len(V.Objs)]
+	if n, err := o.Node(); err == nil {
+		return triple.NewNodeObject(mustNode(n.Type().String(), n.ID().String()))
+	}
+	if p, err := o.Predicate(); err == nil {
+		if np, err := predicate.Parse(p.String()); err == nil {
+			return triple.NewPredicateObject(np)
+		}
+	}
+	if l, err := o.Literal(); err == nil {
+		if nl, err := literal.DefaultBuilder().Parse(l.String()); err == nil && nl != nil {
+			return triple.NewLiteralObject(nl)
+		}
+	}
+	return o
+}
+
+// resolve builds the value anew on every call (see freshNode).
 func (v UVal) resolve() uuidVal {
 	switch v.K {
 	case "n":
-		n := V.Nodes[v.I%len(V.Nodes)]
+		n := freshNode(v.I)
 		return uuidVal{desc: "node " + n.String(), key: nodeKey(n), uuid: func() string { return n.UUID().String() }}
 	case "p":
-		p := V.Preds[v.I%len(V.Preds)]
+		p := freshPred(v.I)
 		return uuidVal{desc: "predicate " + p.String(), key: predKey(p), uuid: func() string { return p.UUID().String() }}
 	case "o":
-		o := V.Objs[v.I%len(V.Objs)]
+		o := freshObj(v.I)
 		return uuidVal{desc: "object " + o.String(), key: "O" + objKey(o), uuid: func() string { return o.UUID().String() }}
 	}
-	t := TSpec{v.T[0] % len(V.Nodes), v.T[1] % len(V.Preds), v.T[2] % len(V.Objs)}.Triple()
+	t, err := triple.New(freshNode(v.T[0]), freshPred(v.T[1]), freshObj(v.T[2]))
+	if err != nil {
+		panic(err)
+	}
 	return uuidVal{desc: "triple " + t.String(), key: tripleKey(t), uuid: func() string { return t.UUID().String() }, tr: t}
 }
 
@@ -189,7 +229,11 @@ func (h *uuidHarness) Run(t *testing.T, ci any) *Outcome {
 			}
 		}
 	}
-	// (1) the same values hashed by concurrent tasks sharing the pools, under the seeded scheduler
+	// (1) the same values - as NEW objects, nothing computed inside them yet - hashed by concurrent tasks sharing the
+	// pools, under the seeded scheduler
+	for i, v := range c.Vals {
+		vals[i] = v.resolve()
+	}
 	sim.ResetPools()
 	type obs struct {
 		task, call, val int
